@@ -51,6 +51,7 @@ class Log:
         self.src_index = {}
         self.node_index = {}
         self.random_draws = {}
+        self.moved = {}
 
 
 class StatsDict(dict):
@@ -154,11 +155,13 @@ def _construct(cfg, mods, env, log, nodes, edges):
                 r = _o(ev, item)
                 it = item[0] if isinstance(item, tuple) else item
                 log.lines.append("P %d %d %d" % (env.now, _i, getattr(it, "_vidx", -1)))
+                log.moved[_i] = log.moved.get(_i, 0) + 1
                 return r
 
             def get(ev, _o=oget, _i=i):
                 it = _o(ev)
                 log.lines.append("T %d %d %d" % (env.now, _i, getattr(it, "_vidx", -1)))
+                log.moved[_i] = log.moved.get(_i, 0) - 1
                 return it
             st.put, st.get = put, get
     for (ei, s, d) in cfg["connects"]:
@@ -177,6 +180,10 @@ def _observe(env, edges, log):
         avail = len(st.ready_items) - len(st.reservations_get)
         if st.reserve_get_queue and avail > 0:
             log.lines.append("OBS %d %d get %d %d" % (env.now, i, len(st.reserve_get_queue), avail))
+        # what the edge really holds against what went in and out through its put / get
+        moved = log.moved.get(i, 0)
+        if len(st.items) + len(st.ready_items) != moved:
+            log.lines.append("OBS %d %d occ %d %d" % (env.now, i, len(st.items) + len(st.ready_items), moved))
 
 
 def run_impl(cfg):
